@@ -55,4 +55,5 @@ def obligations(tier):
                     obls.append(conv(dbl, ot, ch, 17, 0, c=0, ovf=-1, dither=1))
                     obls.append(conv(dbl, ot, ch, 17, 16, c=ch - 1, ovf=4, dither=1))
                     obls.append(conv(dbl, ot, ch, 2, 1, c=0, dither=2))
+    obls += [create_obl(3, timeout=300), create_obl(2, 2, 2)]      # io_spec.scale = user scale x full-scale ratio, applied once (also across soxr_clear)
     return obls
